@@ -145,6 +145,9 @@ type step struct {
 	pvDesc       string
 	runtimePanic bool
 	CtxAct       string // what the handler does to the message context before it returns / panics ("" = nothing)
+	echo         bool   // values classes: the consumed message itself is one of the outputs (inserted at echoPos when the input exists)
+	echoPos      int
+	echoDone     bool
 }
 
 func (s step) String() string {
@@ -157,6 +160,11 @@ func (s step) String() string {
 	}
 	if len(s.outs) > 0 {
 		d += fmt.Sprintf("+%dout", len(s.outs))
+	} else if s.outs != nil {
+		d += "+emptyouts"
+	}
+	if s.echo {
+		d += fmt.Sprintf("+echo-input@%d", s.echoPos)
 	}
 	if s.CtxAct != "" {
 		d += "@ctx=" + s.CtxAct
@@ -173,7 +181,10 @@ type scenario struct {
 	preDelay time.Duration
 	ctxKind  int // 0 background, 1 with value, 2 with value and a far (2h) deadline
 	maxCalls int
-	ctxMode  bool // ctx-replace classes: handler steps and UserMW layers replace the message context
+	ctxMode  bool       // ctx-replace classes: handler steps and UserMW layers replace the message context
+	valMode  bool       // values classes: handler results with unusual Go values (values.go)
+	shared   *sharedEnv // concurrent classes: the chain is built once and called from several goroutines (concurrent.go)
+	yields   int        // concurrent classes: runtime.Gosched() calls of the handler between producing and returning
 }
 
 func (sc *scenario) shape() chainShape {
@@ -201,7 +212,11 @@ func (sc *scenario) scriptStr() string {
 }
 
 func (sc *scenario) describe() string {
-	return fmt.Sprintf("chain=[%s] handler-script=[%s] input(corr=%q preDelay=%v ctx=%d)", sc.chainStr(), sc.scriptStr(), sc.inCorr, sc.preDelay, sc.ctxKind)
+	d := fmt.Sprintf("chain=[%s] handler-script=[%s] input(corr=%q preDelay=%v ctx=%d)", sc.chainStr(), sc.scriptStr(), sc.inCorr, sc.preDelay, sc.ctxKind)
+	if sc.shared != nil {
+		d += " | " + sc.shared.note
+	}
+	return d
 }
 
 type customErr struct{ code int }
@@ -293,9 +308,26 @@ func genPanic(r *vlib.Rand, bases []error) (v any, desc string, rt bool) {
 	}
 }
 
+// genOpts: the zero value plus ctxMode draws exactly what the chain / ctx-replace classes always drew.
+type genOpts struct {
+	ctxMode bool
+	valMode bool    // unusual Go values as handler results (values.go)
+	noWait  bool    // never let the handler wait for a Timeout deadline
+	layers  []layer // use this already parametrised chain (concurrent classes: one wrapped handler, many messages)
+}
+
 func genScenario(r *vlib.Rand, id string, shape chainShape, ctxMode bool) *scenario {
-	sc := &scenario{id: id, ctxMode: ctxMode}
+	return genScenarioOpts(r, id, shape, genOpts{ctxMode: ctxMode})
+}
+
+func genScenarioOpts(r *vlib.Rand, id string, shape chainShape, o genOpts) *scenario {
+	ctxMode := o.ctxMode
+	sc := &scenario{id: id, ctxMode: ctxMode, valMode: o.valMode}
 	bases := baseErrors()
+	var pool *valPool
+	if o.valMode {
+		pool = newValPool(r, id)
+	}
 	// may the handler wait for the Timeout deadline? only when no Timeout sits outside a Retry
 	hasT, tOutsideRetry := false, false
 	for i, k := range shape {
@@ -308,7 +340,7 @@ func genScenario(r *vlib.Rand, id string, shape chainShape, ctxMode bool) *scena
 			}
 		}
 	}
-	sc.useWait = !ctxMode && hasT && !tOutsideRetry && r.Chance(0.35)
+	sc.useWait = !ctxMode && !o.noWait && hasT && !tOutsideRetry && r.Chance(0.35)
 	nRetry := 0
 	for _, k := range shape {
 		if k == kRetry {
@@ -316,7 +348,16 @@ func genScenario(r *vlib.Rand, id string, shape chainShape, ctxMode bool) *scena
 		}
 	}
 	sc.maxCalls = 1
+	for _, l := range o.layers {
+		if l.K == kRetry {
+			sc.maxCalls *= l.MaxRetries + 1
+		}
+	}
+	sc.chain = append(sc.chain, o.layers...)
 	for _, k := range shape {
+		if o.layers != nil {
+			break
+		}
 		l := layer{K: k}
 		switch k {
 		case kTimeout:
@@ -334,6 +375,10 @@ func genScenario(r *vlib.Rand, id string, shape chainShape, ctxMode bool) *scena
 			}
 			if r.Bool() {
 				l.List = append(l.List, errors.New("trap: "+bases[4].Error()), errors.New("trap: "+bases[5].Error()))
+			}
+			if pool != nil && r.Chance(0.6) {
+				// listed errors of non-comparable dynamic types / a nil-valued typed error (matched by text, as all are)
+				l.List = append(l.List, pool.listable(r)...)
 			}
 			for _, e := range l.List {
 				l.listed[e.Error()] = true
@@ -391,7 +436,11 @@ func genScenario(r *vlib.Rand, id string, shape chainShape, ctxMode bool) *scena
 			}
 		case x < 55:
 			st.Kind = "err"
-			st.err, st.errDesc = genErr(r, bases)
+			if pool != nil && r.Chance(0.75) {
+				st.err, st.errDesc = genErrVal(r, bases, pool)
+			} else {
+				st.err, st.errDesc = genErr(r, bases)
+			}
 			if r.Chance(0.6) {
 				st.outs = mkOuts(r.Intn(4))
 			}
@@ -400,7 +449,14 @@ func genScenario(r *vlib.Rand, id string, shape chainShape, ctxMode bool) *scena
 			st.outs = mkOuts(r.Intn(4))
 		default:
 			st.Kind = "panic"
-			st.pv, st.pvDesc, st.runtimePanic = genPanic(r, bases)
+			if pool != nil && r.Chance(0.75) {
+				st.pv, st.pvDesc = genPanicVal(r, bases, pool)
+			} else {
+				st.pv, st.pvDesc, st.runtimePanic = genPanic(r, bases)
+			}
+		}
+		if pool != nil && st.Kind != "panic" {
+			valOuts(r, &st)
 		}
 		if ctxMode && !r.Chance(0.12) {
 			st.CtxAct = handlerActs[r.Intn(len(handlerActs))]
@@ -460,6 +516,9 @@ type model struct {
 	ambiguous bool    // from here on the statement only demands "not cancelled" (see kTimeout in eval)
 	ctxAtCall []*sctx // expected lineage of msg.Context() at the start of each handler call; nil = no demand
 	ctxEff    map[string]int
+
+	in       *message.Message // the consumed message (it may be among the outputs: values classes)
+	echoCorr bool             // CorrelationID saw the consumed message, lacking an id, among the outputs
 }
 
 func newModel(sc *scenario) *model {
@@ -545,6 +604,14 @@ func (m *model) eval(i int) mOut {
 		o := m.eval(i + 1)
 		if !o.panicked {
 			for _, out := range o.outs {
+				if out == m.in {
+					m.eff["echo_under_corr"]++
+					if m.corr[out] == "" {
+						// the consumed message is an output that lacks an id: "copying" its own empty id onto it
+						// may leave an empty correlation_id key on it (SetCorrelationID does) - part of the documented effect
+						m.echoCorr = true
+					}
+				}
 				if m.corr[out] == "" {
 					m.corr[out] = m.sc.inCorr
 					if m.sc.inCorr != "" {
@@ -656,38 +723,64 @@ func stopThrottle(t *middleware.Throttle) {
 	}
 }
 
+// The middlewares are reached through package-level function variables: a call through such a variable is not
+// inlined, so the closures a middleware returns keep their own names
+// (github.com/ThreeDotsLabs/watermill/message/router/middleware.Recoverer.func1 instead of
+// c19.(*scenario).build.Recoverer.func9) and a race report about middleware code carries a watermill frame
+// (the driver tells product races from harness races by the function names on the access stacks).
+var (
+	mwTimeout        = middleware.Timeout
+	mwCorrelationID  = middleware.CorrelationID
+	mwRecoverer      = middleware.Recoverer
+	mwInstantAck     = middleware.InstantAck
+	mwIgnoreErrors   = middleware.IgnoreErrors.Middleware
+	mwDelayOnError   = (*middleware.DelayOnError).Middleware
+	mwCircuitBreaker = middleware.CircuitBreaker.Middleware
+	mwThrottle       = middleware.Throttle.Middleware
+	mwRetry          = middleware.Retry.Middleware
+)
+
 func (sc *scenario) build(h message.HandlerFunc, rr *realRun) (message.HandlerFunc, func()) {
 	var throttles []*middleware.Throttle
 	for i := len(sc.chain) - 1; i >= 0; i-- {
 		l := sc.chain[i]
 		switch l.K {
 		case kTimeout:
-			h = middleware.Timeout(l.Timeout)(h)
+			h = mwTimeout(l.Timeout)(h)
 		case kCorr:
-			h = middleware.CorrelationID(h)
+			h = mwCorrelationID(h)
 		case kRecov:
-			h = middleware.Recoverer(h)
+			h = mwRecoverer(h)
 		case kIgnore:
-			h = middleware.NewIgnoreErrors(l.List).Middleware(h)
+			h = mwIgnoreErrors(middleware.NewIgnoreErrors(l.List), h)
 		case kAck:
-			h = middleware.InstantAck(h)
+			h = mwInstantAck(h)
 		case kDelay:
 			d := &middleware.DelayOnError{InitialInterval: l.DInit, MaxInterval: l.DMax, Multiplier: l.DMult}
-			h = d.Middleware(h)
+			h = mwDelayOnError(d, h)
 		case kBreaker:
 			st := gobreaker.Settings{Name: sc.id, OnStateChange: func(string, gobreaker.State, gobreaker.State) {
 				rr.mu.Lock()
 				rr.breakerCh++
 				rr.mu.Unlock()
 			}}
-			if sc.maxCalls > 5 {
+			if sc.maxCalls > 5 || sc.shared != nil {
 				st.ReadyToTrip = func(gobreaker.Counts) bool { return false }
 			}
-			h = middleware.NewCircuitBreaker(st).Middleware(h)
+			if sh, li := sc.shared, i; sh != nil {
+				// gobreaker calls Settings.IsSuccessful after the handler returned and before it books the result:
+				// the one place where user code runs between "handler returned" and "middleware returned".
+				// Same verdict as the default (err == nil); the concurrent classes park the calls in flight here.
+				st.IsSuccessful = func(err error) bool {
+					sh.afterHandler(li)
+					return err == nil
+				}
+			}
+			h = mwCircuitBreaker(middleware.NewCircuitBreaker(st), h)
 		case kThrottle:
 			t := middleware.NewThrottle(10, time.Millisecond) // one start per 100 µs
 			throttles = append(throttles, t)
-			h = t.Middleware(h)
+			h = mwThrottle(*t, h)
 		case kRetry:
 			rt := middleware.Retry{MaxRetries: l.MaxRetries, InitialInterval: l.RInterval, MaxInterval: 2 * l.RInterval, Multiplier: 1.2,
 				MaxElapsedTime: l.RElapsed, RandomizationFactor: l.RRand,
@@ -696,7 +789,7 @@ func (sc *scenario) build(h message.HandlerFunc, rr *realRun) (message.HandlerFu
 					rr.retryHook++
 					rr.mu.Unlock()
 				}}
-			h = rt.Middleware(h)
+			h = mwRetry(rt, h)
 		case kUser:
 			h = userMW(l, rr, h)
 		}
@@ -740,10 +833,13 @@ func pvMatch(st *step, got any) (ok bool) {
 	return reflect.DeepEqual(st.pv, got)
 }
 
+// sameErr: the identical error value. Comparable dynamic types: ==. Values of non-comparable dynamic types (slice,
+// map, struct with such a field; == panics for them) are the same when they have the same type and are deeply
+// equal - every such value the generator makes has unique contents.
 func sameErr(a, b error) (ok bool) {
 	defer func() {
 		if recover() != nil {
-			ok = false
+			ok = a != nil && b != nil && reflect.TypeOf(a) == reflect.TypeOf(b) && reflect.DeepEqual(a, b)
 		}
 	}()
 	return a == b
@@ -770,8 +866,24 @@ type runStats struct {
 	ambiguous bool
 }
 
-// runScenario executes the real chain once and judges it against the model.
-func runScenario(res *vlib.Result, sc *scenario) runStats {
+// prep is one message going through a chain: the input, the model's verdict, and what really happened.
+type prep struct {
+	sc          *scenario
+	in          *message.Message
+	inSnap      vlib.MsgSnap
+	outSnaps    map[*message.Message]vlib.MsgSnap
+	ctxVal      string
+	parentDL    time.Time
+	parentHasDL bool
+	cancelCtx   func()
+	m           *model
+	mo          mOut
+	rr          *realRun
+	done        chan struct{}
+}
+
+func newPrep(sc *scenario) *prep {
+	p := &prep{sc: sc, rr: &realRun{}, done: make(chan struct{}), outSnaps: map[*message.Message]vlib.MsgSnap{}}
 	// --- input message
 	in := message.NewMessage(sc.id+"-in", []byte("payload-"+sc.id))
 	in.Metadata.Set("k-a", "v1")
@@ -783,98 +895,157 @@ func runScenario(res *vlib.Result, sc *scenario) runStats {
 		delay.Message(in, delay.For(sc.preDelay))
 	}
 	var parent context.Context = context.Background()
-	ctxVal := "val-" + sc.id
-	var parentDL time.Time
-	parentHasDL := false
+	p.ctxVal = "val-" + sc.id
 	switch sc.ctxKind {
 	case 1:
-		parent = context.WithValue(parent, ctxKeyT{}, ctxVal)
+		parent = context.WithValue(parent, ctxKeyT{}, p.ctxVal)
 	case 2:
-		var cancel func()
-		parent, cancel = context.WithDeadline(context.WithValue(parent, ctxKeyT{}, ctxVal), time.Now().Add(2*time.Hour))
-		defer cancel()
-		parentDL, parentHasDL = parent.Deadline()
+		parent, p.cancelCtx = context.WithDeadline(context.WithValue(parent, ctxKeyT{}, p.ctxVal), time.Now().Add(2*time.Hour))
+		p.parentDL, p.parentHasDL = parent.Deadline()
 	}
 	in.SetContext(parent)
-	inSnap := vlib.Snap(in)
-	outSnaps := map[*message.Message]vlib.MsgSnap{}
+	p.in = in
+	p.inSnap = vlib.Snap(in)
+	// values classes: the consumed message itself among the outputs
+	for i := range sc.script {
+		st := &sc.script[i]
+		if st.echo && !st.echoDone {
+			outs := make([]*message.Message, 0, len(st.outs)+1)
+			outs = append(outs, st.outs[:st.echoPos]...)
+			outs = append(outs, in)
+			outs = append(outs, st.outs[st.echoPos:]...)
+			st.outs, st.echoDone = outs, true
+		}
+	}
 	for _, st := range sc.script {
 		for _, o := range st.outs {
-			outSnaps[o] = vlib.Snap(o)
+			if o != in {
+				p.outSnaps[o] = vlib.Snap(o)
+			}
 		}
 	}
-
 	// --- model
-	m := newModel(sc)
-	mo := m.eval(0)
+	p.m = newModel(sc)
+	p.m.in = in
+	p.mo = p.m.eval(0)
+	return p
+}
 
-	// --- real run
-	rr := &realRun{}
-	handler := func(msg *message.Message) ([]*message.Message, error) {
-		rr.mu.Lock()
-		idx := rr.calls
-		rr.calls++
-		rr.mu.Unlock()
-		if idx >= len(sc.script) {
-			idx = len(sc.script) - 1
-		}
-		st := &sc.script[idx]
-		var o callObs
-		ctx := msg.Context()
-		o.ctx = ctx
-		o.tIn = time.Now()
-		o.dl, o.hasDL = ctx.Deadline()
-		o.acked = vlib.IsClosed(msg.Acked())
-		o.valOK = sc.ctxKind == 0 || ctx.Value(ctxKeyT{}) == ctxVal
-		if st.Kind == "wait" {
-			if o.hasDL && time.Until(o.dl) < 2*time.Second {
-				<-ctx.Done()
-				o.waited = true
-				o.doneAt = time.Now()
-				o.errAfter = ctx.Err()
-			} else {
-				o.waitSkipped = true
-			}
-		}
-		o.end = time.Now()
-		rr.mu.Lock()
-		rr.obs = append(rr.obs, o)
-		rr.mu.Unlock()
-		rr.applyAct(st.CtxAct, msg)
-		if st.Kind == "panic" {
-			if st.runtimePanic {
-				nilMapPanic()
-			}
-			panic(st.pv)
-		}
-		return st.outs, st.err
+func (p *prep) release() {
+	if p.cancelCtx != nil {
+		p.cancelCtx()
 	}
-	chainFn, cleanup := sc.build(handler, rr)
-	defer cleanup()
-	done := make(chan struct{})
-	rr.tStart = time.Now()
-	go func() {
-		defer close(done)
-		returned := false
-		defer func() {
-			r := recover()
-			rr.mu.Lock()
-			if !returned {
-				rr.panicked, rr.pv = true, r
-			}
-			rr.mu.Unlock()
-		}()
-		outs, err := chainFn(in)
+}
+
+// handle is the scripted handler at the bottom of the chain.
+func (p *prep) handle(msg *message.Message) ([]*message.Message, error) {
+	sc, rr := p.sc, p.rr
+	rr.mu.Lock()
+	idx := rr.calls
+	rr.calls++
+	rr.mu.Unlock()
+	first := idx == 0
+	if idx >= len(sc.script) {
+		idx = len(sc.script) - 1
+	}
+	st := &sc.script[idx]
+	var o callObs
+	ctx := msg.Context()
+	o.ctx = ctx
+	o.tIn = time.Now()
+	o.dl, o.hasDL = ctx.Deadline()
+	o.acked = vlib.IsClosed(msg.Acked())
+	o.valOK = sc.ctxKind == 0 || ctx.Value(ctxKeyT{}) == p.ctxVal
+	if st.Kind == "wait" {
+		if o.hasDL && time.Until(o.dl) < 2*time.Second {
+			<-ctx.Done()
+			o.waited = true
+			o.doneAt = time.Now()
+			o.errAfter = ctx.Err()
+		} else {
+			o.waitSkipped = true
+		}
+	}
+	o.end = time.Now()
+	rr.mu.Lock()
+	rr.obs = append(rr.obs, o)
+	rr.mu.Unlock()
+	rr.applyAct(st.CtxAct, msg)
+	if sc.shared != nil {
+		// concurrent classes: the result is produced; meet the other calls in flight, then yield before returning
+		sc.shared.inHandler(first, st.Kind == "panic")
+		for i := 0; i < sc.yields; i++ {
+			runtime.Gosched()
+		}
+	}
+	if st.Kind == "panic" {
+		if st.runtimePanic {
+			nilMapPanic()
+		}
+		panic(st.pv)
+	}
+	return st.outs, st.err
+}
+
+// exec calls the wrapped handler with the input and records how the call ended.
+func (p *prep) exec(chainFn message.HandlerFunc) {
+	rr := p.rr
+	defer close(p.done)
+	returned := false
+	defer func() {
+		r := recover()
 		rr.mu.Lock()
-		rr.outs, rr.err = outs, err
+		if !returned {
+			rr.panicked, rr.pv = true, r
+		}
 		rr.mu.Unlock()
-		returned = true
 	}()
+	rr.mu.Lock()
+	rr.tStart = time.Now()
+	rr.mu.Unlock()
+	outs, err := chainFn(p.in)
+	rr.mu.Lock()
+	rr.outs, rr.err = outs, err
+	rr.mu.Unlock()
+	returned = true
+}
+
+// buildSafe: a middleware constructor that panics on a legal configuration is a finding, not a harness crash.
+func (sc *scenario) buildSafe(h message.HandlerFunc, rr *realRun) (fn message.HandlerFunc, cleanup func(), pv any) {
+	defer func() {
+		if r := recover(); r != nil {
+			fn, cleanup, pv = nil, func() {}, r
+		}
+	}()
+	fn, cleanup = sc.build(h, rr)
+	return fn, cleanup, nil
+}
+
+// runScenario executes the real chain once and judges it against the model.
+func runScenario(res *vlib.Result, sc *scenario) runStats {
+	p := newPrep(sc)
+	defer p.release()
+	chainFn, cleanup, pv := sc.buildSafe(p.handle, p.rr)
+	defer cleanup()
+	if chainFn == nil {
+		if !res.Failed() {
+			res.Fail("middleware-construct", "building the chain panicked with %#v | %s", pv, sc.describe())
+		}
+		return runStats{eff: p.m.eff, ctxEff: p.m.ctxEff}
+	}
+	go p.exec(chainFn)
 	opts := waitOpts()
 	if sc.useWait {
 		opts.NotBefore = time.Now().Add(3 * time.Second) // context deadlines are invisible in goroutine dumps
 	}
-	oc, dump := vlib.WaitClosed(done, opts)
+	oc, dump := vlib.WaitClosed(p.done, opts)
+	return p.judge(res, oc, dump)
+}
+
+// judge compares what really happened to this message with the model.
+func (p *prep) judge(res *vlib.Result, oc vlib.Outcome, dump string) runStats {
+	sc, rr, m, mo, in := p.sc, p.rr, p.m, p.mo, p.in
+	inSnap, outSnaps, ctxVal, parentDL, parentHasDL := p.inSnap, p.outSnaps, p.ctxVal, p.parentDL, p.parentHasDL
 	rr.mu.Lock()
 	defer rr.mu.Unlock()
 	defer func() {
@@ -905,7 +1076,7 @@ func runScenario(res *vlib.Result, sc *scenario) runStats {
 		res.Inconclusive("chain did not return before the watchdog: %s", sc.describe())
 		return stats
 	}
-	if rr.breakerCh > 0 {
+	if rr.breakerCh > 0 || (sc.shared != nil && sc.shared.breakerChanges() > 0) {
 		res.Inconclusive("circuit breaker changed state (workload assumption broken): %s", sc.describe())
 		return stats
 	}
@@ -1126,6 +1297,9 @@ func runScenario(res *vlib.Result, sc *scenario) runStats {
 		}
 		a, aok := inSnap.Metadata[k]
 		b, bok := in.Metadata[k]
+		if k == middleware.CorrelationIDMetadataKey && m.echoCorr && a == "" && b == "" {
+			continue
+		}
 		if a != b || aok != bok {
 			fail("input-mutated", "input metadata key %q changed: before (%q,%v) after (%q,%v)", k, a, aok, b, bok)
 			return stats
@@ -1196,16 +1370,27 @@ func runChains(e *vlib.Env, class string, shapes []chainShape, scriptsPer int) v
 }
 
 func runChainsMode(e *vlib.Env, class string, shapes []chainShape, scriptsPer int, ctxMode bool) vlib.Result {
+	return runChainsOpts(e, class, shapes, scriptsPer, genOpts{ctxMode: ctxMode})
+}
+
+func runChainsOpts(e *vlib.Env, class string, shapes []chainShape, scriptsPer int, o genOpts) vlib.Result {
+	ctxMode := o.ctxMode
 	res := vlib.Result{Class: class}
 	ctxTotal := map[string]int{}
 	var sigParts []any
 	var samples []map[string]any
 	effTotal := map[string]int{}
+	effTotalVal := map[string]int{}
 	n := 0
 	for ci, shape := range shapes {
 		for s := 0; s < scriptsPer; s++ {
-			sc := genScenario(e.R, fmt.Sprintf("%s.%d.%d", e.ID(), ci, s), shape, ctxMode)
+			sc := genScenarioOpts(e.R, fmt.Sprintf("%s.%d.%d", e.ID(), ci, s), shape, o)
 			st := runScenario(&res, sc)
+			if sc.valMode {
+				for k, v := range valStats(sc) {
+					effTotalVal[k] += v
+				}
+			}
 			n++
 			res.Events += st.events
 			for k, v := range st.eff {
@@ -1236,8 +1421,17 @@ func runChainsMode(e *vlib.Env, class string, shapes []chainShape, scriptsPer in
 		res.Count(k, v)
 		ctxN += v
 	}
+	valN := 0
+	for k, v := range effTotalVal {
+		res.Count(k, v)
+		valN += v
+	}
 	res.Count("chain_runs", n)
 	res.NonTrivial = eff > 0
+	if o.valMode {
+		// values classes: at least one unusual value went through a middleware
+		res.NonTrivial = eff > 0 && valN > 0
+	}
 	if ctxMode {
 		// ctx-replace classes: at least one context replacement was made inside at least one middleware
 		res.NonTrivial = eff > 0 && ctxN > 0
@@ -1259,6 +1453,20 @@ func runEnum(e *vlib.Env, block, scriptsPer int) vlib.Result {
 		class = fmt.Sprintf("chain/%d+retry", len(first)-1)
 	}
 	return runChains(e, class, shapes, scriptsPer)
+}
+
+func runValSingle(e *vlib.Env, k kind) vlib.Result {
+	return runChainsOpts(e, "values/"+kindName[k], []chainShape{{k}}, scriptsPerCase, genOpts{valMode: true})
+}
+
+func runValEnum(e *vlib.Env, block, scriptsPer int) vlib.Result {
+	shapes := enumChains[block*chainsPerCase : (block+1)*chainsPerCase]
+	first := shapes[0]
+	class := fmt.Sprintf("values/chain/%d", len(first))
+	if first.has(kRetry) {
+		class = fmt.Sprintf("values/chain/%d+retry", len(first)-1)
+	}
+	return runChainsOpts(e, class, shapes, scriptsPer, genOpts{valMode: true})
 }
 
 func runRandom(e *vlib.Env) vlib.Result {
